@@ -81,12 +81,13 @@ func specWrites(fn *ssa.Function) []ssa.Instruction {
 }
 
 func C12(c *Ctx) {
-	c.R.Explanation = "Decides structural necessary conditions of 'a compiled spec is shared immutable data and swaps are atomic': (R1) no instruction in the closure of Step/Walk writes memory reachable from the receiver spec or a package-level variable; (R2) none of the functions that store into existing spec structure (Spec, Node, Branches, Branch, ActionSource) is reachable from Step, Walk, UpdatableSpec.Spec or UpdatableSpec.SetSpec, and installing a spec does not write through it; (R3) the field holding the current spec of an UpdatableSpec is touched only by sync/atomic loads and stores (and its constructor); (R4) Step/Walk never re-read the current spec (no Specter.Spec call in their closure), so one call sees one version; (R5) Spec.Copy shares no Node, Branches, Branch or ActionSource object with its receiver, so compiling an edited copy cannot write the installed version. Race-freedom of third-party code (goja) is not decided."
+	c.R.Explanation = "Decides structural necessary conditions of 'a compiled spec is shared immutable data and swaps are atomic': (R1) no instruction in the closure of Step/Walk writes memory reachable from the receiver spec or a package-level variable; (R2) none of the functions that store into existing spec structure (Spec, Node, Branches, Branch, ActionSource) is reachable from Step, Walk, UpdatableSpec.Spec or UpdatableSpec.SetSpec, and installing a spec does not write through it; (R3) the field holding the current spec of an UpdatableSpec is touched only by sync/atomic loads and stores (and its constructor); (R4) Step/Walk never re-read the current spec (no Specter.Spec call in their closure), so one call sees one version; (R5) Spec.Copy shares no Node, Branches, Branch or ActionSource object with its receiver, so compiling an edited copy cannot write the installed version. (R6) the script runtime used by an execution is created in that execution, so machines walked against one compiled spec share only the immutable compiled program. Race-freedom of third-party code (goja) is not decided."
 	c.R.Rule("C12-R1", "E1", "processing never writes the spec or a package-level variable", 10)
 	c.R.Rule("C12-R2", "E7+E1", "spec writers unreachable from processing and swap; SetSpec does not write its argument", 3)
 	c.R.Rule("C12-R3", "E4", "UpdatableSpec.spec is accessed only through sync/atomic", 2)
 	c.R.Rule("C12-R4", "E7", "one version per call: no Specter.Spec() in the closure of Step/Walk", 2)
 	c.R.Rule("C12-R5", "E1", "Spec.Copy shares no spec-structure object with its receiver", 5)
+	c.R.Rule("C12-R6", "E1", "machines sharing a spec share no script runtime: each execution creates its own", 3)
 
 	a, step, walk := c.stepWalkAnalysis()
 	if a == nil {
@@ -164,6 +165,11 @@ func C12(c *Ctx) {
 		})
 	}
 	_ = walk
+
+	// R6: per-execution runtime (a pooled or cached runtime is state shared by all machines of a spec)
+	if ea, ex := c.ecmaAnalysis(); ea != nil {
+		c.runtimeFresh("C12-R6", ea, ex)
+	}
 
 	// R5: Spec.Copy
 	cp := c.fn("core", "Spec", "Copy")
